@@ -69,38 +69,4 @@ example :
     ((Writer.init m0 m0.size).1.run ops).mem.toList = [0x40, 0x14, 0x01, 0x61, 0x10, 0x01, 0x41] := by
   exact ⟨by decide, by decide⟩
 
-/-! ### C09, writer half: the error latch -/
-
-/-- C09 (writer): after the first failing write every later call (valid or not) returns false,
-    stores nothing, keeps the error set, and the counter keeps counting (modulo 2^64, as `size_t`) -/
-theorem writer_latch (w : Writer) (op : WOp) (h : w.err ≠ .none) :
-    (w.step op).2 = false ∧ (w.step op).1.mem = w.mem ∧ (w.step op).1.err ≠ .none ∧
-    (w.step op).1.fault = w.fault ∧
-    (w.step op).1.used = (w.used + totalLen op.pieces) % two64 :=
-  step_latched w op h
-
-theorem writer_latch_run (w : Writer) (ops : List WOp) (h : w.err ≠ .none) :
-    (w.run ops).err ≠ .none ∧ (w.run ops).mem = w.mem :=
-  let ⟨a, b, _⟩ := run_latched ops w h; ⟨a, b⟩
-
-/-! ### C12, writer half: init and reset -/
-
-/-- C12 (writer): init gives a fresh writer -/
-theorem writer_init_fresh (m : Array UInt8) (cap : Nat) :
-    (Writer.init m cap).2 = true ∧ (Writer.init m cap).1.used = 0 ∧ (Writer.init m cap).1.err = .none :=
-  ⟨rfl, rfl, rfl⟩
-
-/-- C12 (writer): a reset that returned true gives a fresh writer over the same buffer -/
-theorem writer_reset_fresh (w : Writer) (h : w.reset.2 = true) :
-    w.reset.1.used = 0 ∧ w.reset.1.err = .none ∧ w.reset.1.mem = w.mem ∧ w.reset.1.cap = w.cap := by
-  unfold Writer.reset at h ⊢
-  by_cases hb : w.bufNull = true
-  · simp [hb] at h
-  · by_cases hc : w.cap < 2
-    · simp [hb, hc] at h
-    · simp [hb, hc]
-
-/-- `writer_reset_fresh` is not vacuous -/
-example : (Writer.init #[0, 0] 2).1.reset.2 = true := by decide
-
 end Binson
